@@ -28,6 +28,7 @@ type JobRec struct {
 	Enter, Exit atomic.Int64
 	Runs        atomic.Int32
 	SeenID      atomic.Value // string
+	Ref         atomic.Value // the job value the worker function received (batch items have no handle of their own)
 
 	CloseCalled         bool
 	CloseCall, CloseRet int64
@@ -37,6 +38,21 @@ type JobRec struct {
 	Work time.Duration // virtual sleep
 	Gate chan struct{} // if non-nil the function blocks until the gate is closed / receives
 	Out  Outcome
+}
+
+// jobRef wraps the job value so that atomic.Value always stores one concrete type
+type jobRef struct{ J varmq.Job[int] }
+
+// RefStatus reads the status through the job value seen by the worker function ("" if it never ran)
+func (r *JobRec) RefStatus() string {
+	jr, ok := r.Ref.Load().(jobRef)
+	if !ok {
+		return ""
+	}
+	if sp, ok := jr.J.(interface{ Status() string }); ok {
+		return sp.Status()
+	}
+	return ""
 }
 
 func (r *JobRec) SetHandle(h varmq.EnqueuedJob) {
@@ -89,6 +105,12 @@ func (k *Kit) Work(j varmq.Job[int]) Outcome {
 		k.E.Fail("C01", "ran-twice", "", fmt.Sprintf("job %d invoked %d times", d, n))
 	}
 	r.SeenID.Store(j.ID())
+	r.Ref.Store(jobRef{j})
+	if sp, ok := j.(interface{ Status() string }); ok && r.InBatch {
+		if st := sp.Status(); st != "Processing" {
+			k.E.Fail("C16", "not-processing-during-run", "batch-item/"+st, fmt.Sprintf("batch item %d reads %s at the start of its function", d, st))
+		}
+	}
 	r.Enter.Store(k.E.Ev(fmt.Sprintf("enter%d", d)))
 	c := k.inflight.Add(1)
 	for {
